@@ -84,6 +84,7 @@ def run(ck):
     ck.rule("R1", "the allocator cursor strictly advances for every request size, including 0", floor=2)
     ck.rule("R2", "an address taken from the heap cursor is mapped (same address, requested size) on every path before exit", floor=5)
     ck.rule("R3", "heap.vm_alloc maps what it returns", floor=1)
+    _page_length_rules(ck)
 
     cm = ck.repo.mod(COM)
     fn = cm.func("heap.next_addr")
@@ -174,3 +175,55 @@ def run(ck):
     fn = cm.func("heap.alloc")
     ok = any(isinstance(n, ast.Return) and isinstance(n.value, ast.Call) and dotted(n.value.func) == "self.vm_alloc" for n in walk_body(fn))
     ck.ob("R3", "heap.alloc", ok, cm.where(fn), "heap.alloc does not delegate to vm_alloc")
+
+
+def _lenof(e, res, depth=0):
+    """('exact' | 'atmost', text of the length) of a bytes expression, or None when unknown."""
+    if depth > 6:
+        return None
+    if isinstance(e, ast.BinOp) and isinstance(e.op, ast.Mult):
+        for a, b in ((e.left, e.right), (e.right, e.left)):
+            if isinstance(a, ast.Constant) and isinstance(a.value, (bytes, str)) and len(a.value) == 1:
+                return ("exact", norm(b))
+    if isinstance(e, ast.Call) and isinstance(e.func, ast.Attribute) and e.func.attr == "read" and len(e.args) == 1:
+        return ("atmost", norm(e.args[0]))
+    if isinstance(e, ast.Call) and isinstance(e.func, ast.Attribute) and e.func.attr in ("ljust", "rjust") and e.args:
+        return ("atleast", norm(e.args[0]))
+    if isinstance(e, ast.Call) and isinstance(e.func, ast.Attribute) and e.func.attr == "get_mem" and len(e.args) == 2:
+        return ("exact", norm(e.args[1]))
+    if isinstance(e, ast.Name):
+        defs = res.all_defs(e.id)
+        if not defs:
+            return None
+        got = [_lenof(d, res, depth + 1) for d in defs]
+        if any(g is None for g in got):
+            return None
+        kinds = set(g[0] for g in got)
+        lens = set(g[1] for g in got)
+        if len(lens) != 1:
+            return None
+        return ("exact" if kinds == set(["exact"]) else ("atmost" if "atmost" in kinds else "atleast"), lens.pop())
+    return None
+
+
+def _page_length_rules(ck):
+    """R4: "the region returned is mapped for at least the requested size": every page an allocator of the emulated OS creates is
+    built from a bytes value whose length is exactly known (`b"\\x00" * n`), never from something that may come out shorter (a file
+    read hitting end-of-file): mmap of a file past its end must still map len_ bytes (zero filled)."""
+    from sa.astutil import Resolver
+    ck.rule("R4", "a page created by an allocator has a provably exact length (zero-filled, then written), never the length of a short read", floor=4)
+    for rel in ("miasm/os_dep/linux/environment.py", "miasm/os_dep/common.py", "miasm/os_dep/win_api_x86_32.py"):
+        m = ck.repo.mod(rel)
+        for q, fn in sorted(m.funcs.items()):
+            calls = [c for c in walk_body(fn) if isinstance(c, ast.Call) and callee_attr(c) == "add_memory_page" and len(c.args) >= 3]
+            if not calls:
+                continue
+            res = Resolver(fn)
+            for c in calls:
+                ln = _lenof(c.args[2], res)
+                if ln is None:
+                    ck.note("R4: length of `%s` in %s not inferred" % (norm(c.args[2])[:40], q))
+                    continue
+                ck.ob("R4", "%s:add_memory_page(%s)" % (q, norm(c.args[0])[:20]), ln[0] in ("exact", "atleast"), m.where(c),
+                      "the page is created from `%s`, whose length is at most %s: a file mapping that runs past the end of the file "
+                      "leaves the tail of the returned region unmapped" % (norm(c.args[2])[:40], ln[1]))
